@@ -26,6 +26,9 @@ pub enum Ctl {
     Ratio { arg: ArgSpec, relative: bool, ramp: bool },
     /// 0: 0, 1: 1, 2: max, 3: max+1, 4: usize::MAX, 5: frac of max, 6: max + frac
     Chunk { class: u8, frac: u16 },
+    /// reset() on the instance and on its twin: the documented ranges are those of the construction-time
+    /// parameters again (not part of VecResampler: skipped there)
+    Reset,
 }
 
 #[derive(Clone, Debug, Serialize, Deserialize)]
@@ -173,7 +176,13 @@ fn run_t<T: SampleX>(c0: &Case) -> Outcome {
                     // twin receives nothing
                 }
             }
-            Ctl::Chunk { .. } if c0.via_vec => continue,
+            Ctl::Chunk { .. } | Ctl::Reset if c0.via_vec => continue,
+            Ctl::Reset => {
+                a.step(i, &Op::Reset, &sig, &mut ta);
+                b.step(i, &Op::Reset, &sig, &mut tb);
+                cur_chunk = cfg.chunk;
+                o.class("control:reset");
+            }
             Ctl::Chunk { class, frac } => {
                 let max = cfg.chunk;
                 let size = match class % 7 {
@@ -296,6 +305,7 @@ impl Property for C12 {
         let ctl = prop_oneof![
             6 => (arg, any::<bool>(), any::<bool>()).prop_map(|(arg, relative, ramp)| Ctl::Ratio { arg, relative, ramp }),
             1 => (0u8..7, any::<u16>()).prop_map(|(class, frac)| Ctl::Chunk { class, frac }),
+            1 => Just(Ctl::Reset),
         ];
         let mut sp = CfgSpace::histories(tier.thorough());
         sp.max_chunk = 256;
